@@ -6,7 +6,7 @@
   cached field; `sstep` is the documented effect of each call on the block list of its target only.
   `abs` forgets `children`, `text`, `parentNode`, `ownerDocument`.
 -/
-import AHP.Lemmas.DomFrame
+import AHP.Lemmas.DomHtml
 namespace AHP.C05
 open AHP AHP.Dom AHP.Dom.Spec
 
@@ -269,22 +269,6 @@ theorem frame_apply (w w' : World) (t : Nat) (loc : Meta → List DN → Option 
 
 /-! ## C05d — serialisation laws -/
 
-theorem innerL_eq_flatten (bs : List DN) : innerL bs = (bs.map outerHTML).flatten := by
-  induction bs with
-  | nil => simp [innerL]
-  | cons b bs ih => simp [innerL, ih]
-
-theorem noContent_innerL (bs : List DN) (h : noContent bs) : innerL bs = [] := by
-  induction bs with
-  | nil => simp [innerL]
-  | cons b bs ih =>
-    cases b with
-    | el m k => simp [noContent] at h
-    | text s =>
-      simp only [noContent, elemIds_text, textOf_text, List.append_eq_nil_iff] at h
-      simp only [innerL, outerHTML, h.2.1, List.nil_append]
-      exact ih ⟨h.1, h.2.2⟩
-
 /-- outerHTML = start tag + innerHTML + end tag, for every element. -/
 theorem outerHTML_law (m : Meta) (bs : List DN) :
     outerHTML (.el m bs) = startTag m ++ innerHTML m bs ++ endTag m := by
@@ -302,40 +286,14 @@ theorem innerHTML_law (m : Meta) (bs : List DN) (par own : Option Nat) (h : OK p
     exact (noContent_innerL bs (h.2.2.2.2.1 hsc)).symm
   · rfl
 
-theorem textContentL_eq_flatten (bs : List DN) : textContentL bs = (bs.map textContent).flatten := by
-  induction bs with
-  | nil => simp [textContentL]
-  | cons b bs ih => simp [textContentL, ih]
-
 /-- textContent = the document-order concatenation of all text. -/
 theorem textContent_law (m : Meta) (bs : List DN) : textContent (.el m bs) = (bs.map textContent).flatten := by
   simp [textContent, textContentL_eq_flatten]
 
-mutual
 /-- The serialisation of a document is a function of its blocks alone: it equals the serialisation of
     the reference document (no cached field takes part). -/
-theorem outerHTML_abs (n : DN) : outerHTML n = shtml (abs n) := by
-  match n with
-  | .text s => simp [outerHTML, shtml]
-  | .el m bs =>
-    simp only [outerHTML, abs_el, shtml, innerL_abs bs]
-    rfl
-theorem innerL_abs (bs : List DN) : innerL bs = shtmlL (absL bs) := by
-  match bs with
-  | [] => simp [innerL, shtmlL]
-  | b :: bs => simp [innerL, shtmlL, outerHTML_abs b, innerL_abs bs]
-end
-
-mutual
-theorem textContent_abs (n : DN) : textContent n = stext (abs n) := by
-  match n with
-  | .text s => simp [textContent, stext]
-  | .el m bs => simp [textContent, stext, textContentL_abs bs]
-theorem textContentL_abs (bs : List DN) : textContentL bs = stextL (absL bs) := by
-  match bs with
-  | [] => simp [textContentL, stextL]
-  | b :: bs => simp [textContentL, stextL, textContent_abs b, textContentL_abs bs]
-end
+theorem serialisation_depends_on_blocks_only (n : DN) : outerHTML n = shtml (abs n) ∧ textContent n = stext (abs n) :=
+  ⟨outerHTML_abs n, textContent_abs n⟩
 
 /-- After any history, outerHTML / textContent of every root are those of the reference document
     driven by the same calls (C05a + the two lemmas above). `str()`, `toHTML`, `asHTML`, `getHTML` are
